@@ -101,9 +101,14 @@ def case_slices(T, tree, pairs, xdt):
         i1, cols = slice_indices(s1, n)
         tag = f"A[{_sn(s0)},{_sn(s1)}]" + ("#repr" if len(set(rows)) < len(rows) else "") + ("#repc" if len(set(cols)) < len(cols) else "")
         Mref = M[np.ix_(rows, cols)]
+        keep = [np.array(i, copy=True) if isinstance(i, np.ndarray) else None for i in (i0, i1)]
         S = _try(T, tag, lambda: A[i0, i1])
         if S is not None:
             _try(T, tag, lambda: _obs_sub(T, tag, S, Mref, R.dt, xdt))
+        # the caller's index arrays are inputs: unchanged afterwards (they may be used again, on an axis of another length)
+        for ax, (i_, k_) in enumerate(zip((i0, i1), keep)):
+            if k_ is not None:
+                T.check(f"{tag}: index array of axis {ax} unchanged", bool(np.array_equal(i_, k_)), f"{k_} -> {i_}")
     # a single slice / index array selects rows
     for s0 in [p[0] for p in pairs[:3]]:
         i0, rows = slice_indices(s0, m)
